@@ -37,7 +37,8 @@ RateMonitoring::RateMonitoring()
   lastDuration_(Duration::zero()),
   periods_(),
   periodsSum_(0),
-  rate_(0)
+  rate_(0),
+  hasData_(false)
 {
 }
 
@@ -55,7 +56,8 @@ RateMonitoring::RateMonitoring(const RateMonitoring & rateMonitoring)
   lastDuration_(rateMonitoring.lastDuration_.load()),
   periods_(rateMonitoring.periods_),
   periodsSum_(rateMonitoring.periodsSum_),
-  rate_(rateMonitoring.rate_.load())
+  rate_(rateMonitoring.rate_.load()),
+  hasData_(rateMonitoring.hasData_.load())
 {
 }
 
@@ -87,6 +89,7 @@ double RateMonitoring::update(const Duration & duration)
   }
 
   lastDuration_.store(duration);
+  hasData_.store(true);
   return rate_.load();
 }
 
@@ -99,7 +102,7 @@ double RateMonitoring::getRate()const
 //-----------------------------------------------------------------------------
 bool RateMonitoring::timeout(const Duration & duration)
 {
-  if (!periods_.empty() &&
+  if (hasData_.load() &&
     durationToSecond(duration - lastDuration_.load()) > 0.5)
   {
     rate_.store(0.);
